@@ -6,7 +6,8 @@ statements, blocks, declarations and whole programs, WITH the layout: lines, ind
 
 Spec (Spec/StmtSyntax.lean): a `Layout Y` (the lexer's line table + the position of EOF), `layoutOps Y` (the token-level lexer that
 hands out a token list read against `Y`: a token's line is `FindLineIdx` of its `StartIdx` in `Y.lines`), and the rendering
-relations `LinE` (expressions, with the lines the parser stores), `LinStmt s d ts`, `LinBlock ss d ts`, `LinExec x d ts`,
+relations `LinE` (expressions — operators, assignments, member / index chains, calls, 新建, method-call chains, list and dictionary
+literals, a `，` after an operand — with the lines the parser stores), `LinStmt s d ts`, `LinBlock ss d ts`, `LinExec x d ts`,
 `LinProgram p ts` (`d` = indentation of the node's lines).  The layout discipline is three predicates of the spec: `Glued` (no
 statement line break inside a simple statement / a header), `Sep` (a statement line break between consecutive statements) and
 `Y.ind … = d` (first tokens of statements, `：`/`？` of headers, 再如/否则/拦截 on lines indented by `d`; the block one step deeper).
@@ -15,11 +16,15 @@ The invariant (Proofs/StmtBase.lean, stated once): every parser state reached on
 `S Y p1 ts fl` — last consumed token, remaining tokens, statement-complete flag; the four line fields of the Go parser are functions
 of the two window tokens (this is where `InOrder` is needed: `next()` searches the line table from the previous position on);
 consuming `t` when `u` follows turns the flag into `fl || Y.brk t u`.  A statement production enters with any flag (it resets it) and
-leaves in `S Y (last token) rest true`; `expectBlockIndent` compares the indentation of the lines of the two window tokens.
+leaves in `S Y (last token) rest true` — a simple statement that is followed by `；` on its line leaves with the flag as the layout
+makes it (`CSimple`), and the `；` makes the statement complete; `expectBlockIndent` compares the indentation of the lines of the two
+window tokens.
 
 What `line` fields hold: a statement node the line (`Y.sl`) of its FIRST token (令 如果 每当 遍历 以 输出 抛出 如何 定义 结束循环 继续循环);
 an identifier the line of its token; a binary expression the line of its operator token; `{ e }` puts the line of `{` on the top
-node of `e`; methods and getters inside a 定义 hold line 0 (the Go code never sets it); an expression statement is the expression.
+node of `e` (so do `（`, `【`, 以 for calls, literals, method calls); `x 之 p` and `其 p` hold line 0, `x # i` the line of `#`; the calls of a
+method-call chain hold line 0; methods and getters inside a 定义, 导入 nodes and the empty statement of a `；` hold line 0 (the Go code
+never sets them); an expression statement is the expression (`以 x（m）` as a statement: the line of 以).
 
 Variants: every theorem here holds for every `Variant` `v` of the parser model — in particular for `Variant.legacy` (the pinned Go
 tree) and `Variant.fixed` (the repaired one): on a rendering none of the three repaired places is reached.
@@ -37,8 +42,9 @@ variable {Y : Layout} (v : Variant)
 
 /-- **parse_expression_roundtrip_layout**: `parse_tokens_roundtrip_partial` with layout and in context.  A rendering `ts` of the
 expression `e` (any operator synonym, braces anywhere), laid out over any number of lines as long as no statement line break falls
-inside (`Glued`: line breaks only after `{` or before `}` in this fragment), followed by tokens `rest` that do not continue an
-expression (a statement line break, or a token outside the follow set `F1`; never a comma), parses to exactly `e` — line fields as
+inside (`Glued`: line breaks only after `， 、 { 【 ： ？` or before `】 }` — `linebreak_exceptions`), followed by tokens `rest` that do not
+continue an expression (a statement line break, or a token outside the follow set `F1`; never a comma: a comma after the
+expression belongs to its rendering), parses to exactly `e` — line fields as
 `LinE` says — and leaves the parser right after `ts`. -/
 theorem parse_expression_roundtrip_layout {e : Expr} {ts : List Token} (h : LinE Y 1 e ts) (hg : Y.Glued ts)
     (p1 : Option Token) (rest : List Token) (ho : Y.InOrder (ts ++ rest)) (hs : Stop Y F1 ts rest) (n : Nat)
@@ -46,9 +52,9 @@ theorem parse_expression_roundtrip_layout {e : Expr} {ts : List Token} (h : LinE
     parse v (layoutOps Y) n (.expr true) (S Y p1 (ts ++ rest) false) = .ok e (Send Y ts rest) :=
   expr_roundtrip h hg p1 rest ho hs n hn
 
-/-- **parse_simple_statement_roundtrip** (level 1: expression statement, `令 a、b 设为/恒为/= e`, `输出 e`, `抛出 类：e、…！`, 结束循环,
-继续循环 — `LinSimple`).  `ParseStatement` on a rendering of such a statement, in any state (any flag, any previous token), followed
-by anything that a statement line break separates from it and that is not a comma, returns exactly that statement and leaves the
+/-- **parse_simple_statement_roundtrip** (level 1: expression statement — calls `（显示：…）`, assignments, … —, `以 x（m：a）、（n）` as a
+statement, `令 a、b 设为/恒为/= e`, `输出 e`, `抛出 类：e、…！`, 结束循环, 继续循环 — `LinSimple`).  `ParseStatement` on a rendering of such a
+statement, in any state (any flag, any previous token), followed by anything that a statement line break separates from it and that is not a comma, returns exactly that statement and leaves the
 parser right after it with the statement marked complete.  Indentation plays no part at this level. -/
 theorem parse_simple_statement_roundtrip {s : Stmt} {ts : List Token} (h : LinSimple Y s ts)
     (p1 : Option Token) (rest : List Token) (fl : Bool) (ho : Y.InOrder (ts ++ rest))
@@ -57,6 +63,16 @@ theorem parse_simple_statement_roundtrip {s : Stmt} {ts : List Token} (h : LinSi
     parse v (layoutOps Y) n .statement (S Y p1 (ts ++ rest) fl) = .ok s (S Y ts.getLast? rest true) :=
   -- the claim of a simple statement does not look at the indentation: render it one step deeper than what follows
   (linN_claim (v := v) (.simple (Y.ind (Y.peek rest) + 1) s ts h)).2 p1 rest fl ho ⟨hb, hc, Or.inr (Or.inl (Nat.lt_succ_self _))⟩ n hn
+
+/-- **parse_simple_statement_semicolon**: the same when a `；` follows instead of a statement line break (`a；b` on one line): the
+statement is complete because of the `；`, the flag is what the layout makes it.  (The `；` itself then is an empty statement —
+`LinN.blockEmpty`, `LinN.blockConsSemi` — with line 0.) -/
+theorem parse_simple_statement_semicolon {s : Stmt} {ts : List Token} (h : LinSimple Y s ts)
+    (p1 : Option Token) (rest : List Token) (fl : Bool) (ho : Y.InOrder (ts ++ rest))
+    (hsemi : (Y.peek rest).type = cTypeStmtSep) (n : Nat) (hn : 16 * ts.length + 20 ≤ n) :
+    parse v (layoutOps Y) n .statement (S Y p1 (ts ++ rest) fl) =
+      .ok s (S Y ts.getLast? rest (Y.jf ts.getLast? (Y.peek rest))) :=
+  (linSimple_claim (v := v) h).2 p1 rest fl ho ⟨by rw [hsemi]; decide, Or.inr hsemi⟩ n hn
 
 /-- **parse_statement_roundtrip** (levels 1–3: every statement form of `LinStmt`, blocks nested to any depth).
 `ParseStatement` on a rendering of the statement `s` whose lines are indented by `d`, in any state, followed by `rest` such that
@@ -129,15 +145,18 @@ theorem parse_statements_roundtrip_comments {p : Program} {raw : List Token} (h 
 /-- the one-line token lexer of `parse_tokens_roundtrip_partial` is the special case of a layout with a single line -/
 theorem parseTokens_is_laidOut (n : Nat) (ts : List Token) : parseTokens v n ts = parseLaidOut v oneLine n ts := rfl
 
-/-- What is NOT covered, kept as a statement over an abstract rendering relation `LinFull` meant to extend `LinProgram` by:
-(a) all expression forms — calls, member / index chains, arrays and maps, assignments, `以 … （…）` method calls, also as statements
-(Spec/ExprSyntax has the operators, braces and leaves only; every production of the expression grammar needs its `LinE` clause
-and its case in Proofs/StmtExpr.lean);
-(b) `；` between statements on one line and the empty statement node it produces (the statement before a `；` leaves with the flag
-unset, so the exit state of `CStmt` must become `Send` instead of "flag set");
-(c) commas: a single `，` before a token that is fetched through `tryConsume` is swallowed (`comma_is_optional`) and, being one of
-`， 、 { 【 ： ？`, also lets the line break after it pass — so commas cannot be erased like comments, they have to become part of `Glued`
-and of every rendering clause.
+/-- What is STILL not covered, kept as a statement over an abstract rendering relation `LinFull` meant to extend `LinProgram`.
+Every production of the parser model is now covered (all expression forms, all statement forms, `；`, 导入, a `，` after an
+operand, comments); what remains are layouts the model accepts beyond the rendering discipline:
+(a) commas in other places than after an operand (`LinX.commaAfter`): the parser swallows a single `，` before ANY token it fetches
+through `tryConsume` — after a keyword, after `（`, after an operator, at the start of a statement (`comma_is_optional`); each such
+place needs its clause in the relation and its case in the production's lemma (the probe that swallows the comma differs from
+place to place, and it leaves the comma as the "current token");
+(b) inside a dictionary literal the model forgives a statement line break after a value (`hashLoop` resets the flag), and inside
+`令：` it skips `；`; `Glued` / `LinPairs` do not offer these;
+(c) a statement other than a simple one directly followed by `；` on the line of its last token is covered only as what it is for
+the parser: the `；` belongs to the innermost block that is open there;
+(d) list items must be glued to each other (same line, or a `，` before the line break): the model has no other way either.
 The character level (`parse_render_full`) additionally needs the lexer: that `lexAll` of a rendered text yields such a token list
 and the `Layout` made of `Lexer.Lines` and the length of the text. -/
 def parse_statements_roundtrip_full (LinFull : Layout → Program → List Token → Prop) : Prop :=
@@ -205,7 +224,7 @@ theorem exProgram_rendered : LinProgram exY exProgram exTokens := by
       (.add e2 _ _ [e1] [e3] (by decide)
         (.up 5 _ _ (by decide) (.up 6 _ _ (by decide) (.id e1 rfl))) (.up 6 _ _ (by decide) (.id e3 rfl))))))
   have hexpr : LinN exY 0 (.stmt (.expr (.arith (exY.sl e2) (lookupD addSubOverride e2.type addSubDefault) (idE e1) (idE e3))))
-      ([e1] ++ e2 :: [e3]) := .simple 0 _ _ (.exprStmt _ _ hadd (by decide))
+      ([e1] ++ e2 :: [e3]) := .simple 0 _ _ (.exprStmt _ _ hadd (by decide) (by decide))
   have hbody : LinN exY 0 (.block _) ([a1, a2, a3, a4] ++ ((b1 :: [b2] ++ b3 :: ([c1, c2] ++ ([d1] ++ []))) ++ (([e1] ++ e2 :: [e3]) ++ []))) :=
     .blockCons 0 _ _ _ _ hdecl (by decide)
       (.blockCons 0 _ _ _ _ hwhile (by decide) (.blockCons 0 _ _ _ _ hexpr (by decide) (.blockNil 0) (Or.inl rfl)) (Or.inr (by decide)))
